@@ -228,6 +228,9 @@ def structured_cases(rng, n):
                                  ('ab, a, abc', 'a ab abc a##ab abcd b', '1, 2, 3'), ('x, xx, xxx', 'xxx xx x x##xx #xx', 'r, s, t'), ('done, do', 'do done don dones', 'u, v'),
                                  ('_, __, _1', '_ __ _1 ___ _1_', 'a, b, c')]:
         out.append(('#define PM(%s) [%s]\n> PM(%s) <\n' % (params, body, call), {'struct:parameter-name-prefixes'}))
+    # a # that comes out of a macro expansion at the start of a line is not a directive
+    for body in ['define WIDTH 8', 'undef KEEP', 'if 0', 'include "nonexistent.h"', 'error no', 'pragma once', 'line 99', '']:
+        out.append(('#define HASH #\n#define ID(x) x\n#define KEEP 5\n#define EMPTY\nHASH %s\n> WIDTH KEEP <\nID(#) %s\nEMPTY HASH %s\n> WIDTH KEEP <\n' % (body, body, body), {'struct:hash-from-expansion-at-line-start'}))
     names = ['ID', 'APPLY', 'B', 'CALL', 'WRAP', 'F', 'G', 'H']
     for i in range(n):
         r = rng.random()
